@@ -32,6 +32,9 @@ def check_shape(data, o):
     if o.exc == "StepLimit":
         out.append(("hang|lexer-steps>2*len+16", {"steps": o.steps}))
         return out
+    if o.exc == "CpuLimit":
+        out.append(("hang|more-than-8s-cpu-for-one-parse", {"steps": o.steps}))
+        return out
     if o.exc is not None:
         out.append(("exception|" + o.exc, {"exc": o.exc_msg}))
         return out
@@ -292,7 +295,7 @@ def scaling_worker(arg):
             t = time.time()
 
             def run():
-                impl.parse_outcome(data, step_factor=1000)
+                impl.parse_outcome(data, step_factor=1000)  # (cpu guard of 8 s applies)
 
             ev.append(count_lines(run))
             wall.append(round(time.time() - t, 4))
@@ -336,7 +339,7 @@ def atheris_campaign(seed, runs, seeded):
         cmd = [sys.executable, "-m", "vf.fuzz_c02", findings, corpus, "-runs=%d" % runs, "-seed=%d" % (seed + 1), "-max_len=256",
                "-dict=" + dic, "-print_final_stats=1", "-verbosity=0"]
         try:
-            r = subprocess.run(cmd, cwd=core.ROOT, env=env, capture_output=True, text=True, timeout=3600)
+            r = subprocess.run(cmd, cwd=core.ROOT, env=env, capture_output=True, text=True, timeout=3600, preexec_fn=core.unlimited_cpu)
         except subprocess.TimeoutExpired:
             col.inconclusive.append("atheris campaign (seeded=%s) hit the 1 h ceiling" % seeded)
             return col
@@ -383,6 +386,8 @@ def replay(case):
         col = scaling_worker((case["family"], case["n"]))
         return [(b, f["detail"]) for b, f in col.fails.items()]
     data = case["data"]
+    if case.get("isolate"):
+        return isolated_parse(data)
     if case.get("file"):
         work = os.path.join(core.ROOT, ".work")
         os.makedirs(work, exist_ok=True)
@@ -417,7 +422,7 @@ def replay(case):
 
 
 def shrink(case, bucket, budget):
-    if "family" in case or case.get("file"):
+    if "family" in case or case.get("file") or case.get("isolate"):
         return None
     data = case["data"]
 
@@ -434,12 +439,36 @@ def shrink(case, bucket, budget):
     return c
 
 
+def on_killed(k):
+    """A worker died inside the code under test: with SIGXCPU this is a parse
+    that burnt more than core.CPU_KILL_AFTER seconds of CPU inside C code."""
+    col = core.Collector()
+    if k.signum == 24:  # SIGXCPU
+        col.case(key=k.current, nontrivial=True, classes=("killed-by-cpu-limit",))
+        col.fail("hang|killed-after-%ds-cpu-inside-one-parse" % core.CPU_KILL_AFTER, {"data": k.current, "as_str": False, "isolate": True},
+                 {"input": k.current, "signal": k.signum, "shard": repr(k.shard)[:200]})
+    else:
+        col.inconclusive.append("worker died with signal/exit %s on %r" % (k.signum, k.current[:200]))
+    return col
+
+
+def isolated_parse(data):
+    """Parse in a forked child under the CPU kill limit. -> True if the child was killed."""
+    def one(_):
+        c = core.Collector()
+        impl.parse_outcome(data)
+        c.case(nontrivial=False)
+        return c
+    res = core.run_shards(one, [0], on_killed=on_killed)
+    return [(b, f["detail"]) for b, f in res.fails.items()]
+
+
 def main(tier, seed, t0):
     quick = tier == "quick"
     overrides = dict(blind=3 if quick else 4 if os.environ.get("VERIF_DEEP") else 3, guided=5 if quick else 7,
                      gen=100 if quick else 1500)
     shards = [(MOD, s) for s in pspace.shards_for(tier, seed, overrides=overrides)]
-    col = core.run_shards(pspace.worker, shards)
+    col = core.run_shards(pspace.worker, shards, on_killed=on_killed)
     nbytes = 400 if quick else 15000
     extra = [("bytes", (seed * 1000 + 100 + k, nbytes, 3 if quick else 5)) for k in range(16)]
     extra.append(("collision", None))
@@ -448,7 +477,7 @@ def main(tier, seed, t0):
     extra += [("scaling", (name, n0)) for name in sorted(FAMILIES)]
     runs = 20000 if quick else 1500000
     extra += [("atheris", (seed, runs, True)), ("atheris", (seed, runs, False))]
-    col.merge(core.run_shards(extra_worker, extra))
+    col.merge(core.run_shards(extra_worker, extra, on_killed=on_killed))
     need = ["src:blind", "src:guided", "src:gen", "src:mutant", "src:bytes", "src:collision", "src:parse_file",
             "src:scaling", "input:str", "verdict:False", "verdict:True"]
     missing = [c for c in need if not col.classes.get(c)]
